@@ -6,7 +6,7 @@ the default build's (and, for the default build, with the model and the truth)."
 import os, subprocess, hashlib
 import vlib
 from fhgen import *
-from props import C01, C04, C12
+from props import C01, C04, C06, C12, C20
 
 RULE = ("8 feature subsets x battery (C01 ground-truth walks on both architectures and policies, C04 fallback "
         "matrix, C12 presentation triples); distinct = (subset, suite)")
@@ -17,13 +17,47 @@ TRUSTED_BASE = ["tools/extract_consts.py: selector list of ModuleUnwindDataInter
 SUBSETS = [[], ["std"], ["macho"], ["pe"], ["std", "macho"], ["std", "pe"], ["macho", "pe"], ["std", "macho", "pe"]]
 _battery = []
 
+def nested_state_suite(rng):
+    """CFI programs with 1..3 nested DW_CFA_remember_state (gimli's fixed row stack) under both policies, and
+    expression depths around the fixed evaluation stack (C15's suite)"""
+    out = []
+    for arch in ("x86", "a64"):
+        R = ARCH_REGS[arch]
+        gran = 8 if arch == "x86" else 16
+        for policy in ("must", "may"):
+            s = Script(arch, policy)
+            fdes = []
+            for d in (1, 2, 3):
+                rows = [(4 * i, dict(cfa=("r", R["sp"], gran * (i + 1)), fp=("s",), ra=(("o", -8) if arch == "x86" else ("s",))))
+                        for i in range(2 * d + 1)]
+                fdes.append(dict(start=0x1000 + 0x100 * d, len=0x100, rows=rows,
+                                 remember_at=tuple(4 * i for i in range(1, d + 1)),
+                                 restore_at=tuple(4 * i for i in range(d + 1, 2 * d + 1))))
+            s.module_dwarf("M", 0x10000, 0x20000, 0x10000, 0, rng.choice(["hdr", "eh", "debug"]), fdes, rng)
+            s.add("new U"); s.add("add U M"); s.add("newcache C")
+            base = 0x7000
+            s.mem("S", [(a, 0x11100 + 0x100 * ((a >> 3) % 3) + 0x40) for a in range(base, base + 0x200, 8)])
+            for d in (1, 2, 3):
+                for i in range(2 * d + 1):
+                    pc = 0x11000 + 0x100 * d + 4 * i + 1
+                    regs = s.regs_x86(pc, base, base + 0x80) if arch == "x86" else s.regs_a64(M64, 0x11140, base, base + 0x80)
+                    s.add("unwind U C ip %s %s S" % (hx(pc), regs), tag="nested:%s:%s:%d" % (arch, policy, d))
+            out.append(("nested-%s-%s" % (arch, policy), s))
+    return out
+
 def generate(rng, tier):
     out = []
     out += [("c01-" + n, s) for n, s in C01.generate(rng, "quick")[: (4 if tier == "quick" else 6)]]
     out += [("c04-" + n, s) for n, s in C04.generate(rng, "quick")[: (4 if tier == "quick" else 12)]]
     out += [("c12-" + n, s) for n, s in C12.generate(rng, "quick")[: (2 if tier == "quick" else 6)]]
+    # histories on shared caches (failing calls followed by succeeding ones at the same address, module changes)
+    out += [("c06-" + n, s) for n, s in C06.generate(rng, "quick")[: (3 if tier == "quick" else 8)]]
+    out += [("c20-" + n, s) for n, s in C20.generate(rng, "quick")[: (2 if tier == "quick" else 6)]]
     for n, sc in out:
-        sc.c19_judge = {"c01": C01.judge, "c04": C04.judge, "c12": C12.judge}[n[:3]]
+        sc.c19_judge = {"c01": C01.judge, "c04": C04.judge, "c12": C12.judge, "c06": C06.judge, "c20": C20.judge}[n[:3]]
+    from props import C15
+    out += nested_state_suite(rng)
+    out += [("c15-" + n, sc) for n, sc in C15.depth_suite(rng, tier)]
     _battery[:] = out
     return out
 
